@@ -68,7 +68,7 @@ structure Elem where
   deriving DecidableEq, Repr, Inhabited
 
 inductive Op where
-  | create | update | archive | tombstone
+  | create | update | archive | tombstone | retract
   deriving DecidableEq, Repr, Inhabited
 
 structure Change where
@@ -139,6 +139,8 @@ structure Tx where
   /-- `BTreeMap<ElementId, Staged>`: kept sorted by `Id.lt`, one entry per id -/
   staged : List (Id × Staged)
   shells : List Id
+  /-- ghost (not in the code): the handle names phase 1 declared; used by the proofs only -/
+  declared : List Nat := []
 
 inductive Err where
   | dupHandle | invalid | unknownHandle | notFound | versionConflict | precond | identityConflict | unique
@@ -195,7 +197,7 @@ def declare (s : Store) (tx : Tx) (h : Nat) (k : Kind) : PS :=
   | some _ => .fail s tx .dupHandle
   | none =>
       let (s', tx', id) := mintShell s tx k
-      .ok s' { tx' with handles := tx'.handles ++ [(h, id)] }
+      .ok s' { tx' with handles := tx'.handles ++ [(h, id)], declared := h :: tx'.declared }
 
 /-- `Transaction::bind_existing` -/
 def bindExisting (s : Store) (tx : Tx) (h : Nat) (id : Id) : PS :=
@@ -208,6 +210,10 @@ def stageNew (tx : Tx) (id : Id) (row : Row) : Tx :=
   let x : Staged := { row := row, state := .pending, version := 0, isNew := true, changed := true, op := .create }
   { tx with staged := stSet tx.staged id x }
 
+/-- the staged copy of a stored row: unchanged, op `update` -/
+def Staged.ofElem (e : Elem) : Staged :=
+  { row := e.row, state := e.state, version := e.version, isNew := false, changed := false, op := .update }
+
 /-- `Transaction::load`: the staged copy, or the stored row (whatever its state — the code does not
 look at `state` here) staged unchanged. -/
 def load (s : Store) (tx : Tx) (id : Id) : Except Err (Tx × Staged) :=
@@ -216,10 +222,7 @@ def load (s : Store) (tx : Tx) (id : Id) : Except Err (Tx × Staged) :=
   | none =>
       match s.elems id with
       | none => .error .notFound
-      | some e =>
-          let x : Staged := { row := e.row, state := e.state, version := e.version, isNew := false,
-                              changed := false, op := .update }
-          .ok ({ tx with staged := stSet tx.staged id x }, x)
+      | some e => .ok ({ tx with staged := stSet tx.staged id (Staged.ofElem e) }, Staged.ofElem e)
 
 /-- `Transaction::mark_changed` after the clause edited the staged row -/
 def markChanged (tx : Tx) (id : Id) (x : Staged) (op : Op) : Tx :=
@@ -259,6 +262,11 @@ def propHasTuple (s : Store) (t : Id × Nat × Id) (i : Id) : Bool :=
 def findProposition (s : Store) (t : Id × Nat × Id) : Option Id :=
   (idsOf s .proposition).find? (propHasTuple s t)
 
+/-- `Transaction::staged_new_proposition`: the first staged row (in id order) that is a new
+Proposition carrying the tuple key -/
+def stagedNewProposition (tx : Tx) (t : Id × Nat × Id) : Option Id :=
+  (tx.staged.find? (fun p => p.1.kind == .proposition && p.2.isNew && p.2.row.tup == some t)).map (·.1)
+
 /-! ## Clauses -/
 
 inductive Ref where
@@ -279,6 +287,9 @@ inductive Clause where
   | update (t : Ref) (val : Nat) (expect : Option Nat) (bad : Bool)
   /-- `ARCHIVE / TOMBSTONE target [EXPECT STATE]` -/
   | setState (t : Ref) (to : St) (expect : Option St)
+  /-- `RETRACT ASSERTION target [EXPECT STATE status]`; an Assertion's lifecycle status is its `val`
+  (0 = active, 1 = retracted) -/
+  | retract (t : Ref) (expect : Option Nat)
   deriving Repr
 
 /-- `clauses::plan_pass` -/
@@ -360,6 +371,17 @@ def pSetState (id : Id) (to : St) (expect : Option St) (s : Store) (tx : Tx) : P
       else .ok s (markChanged tx1 id { x with state := to }
                     (match to with | .tombstoned => .tombstone | _ => .archive))
 
+/-- `RETRACT ASSERTION` of one target (`clauses::retract`): the target must be an Assertion, an
+`EXPECT STATE` compares its lifecycle status, an already retracted one is left alone -/
+def pRetract (id : Id) (expect : Option Nat) (s : Store) (tx : Tx) : PS :=
+  match load s tx id with
+  | .error e => .fail s tx e
+  | .ok (tx1, x) =>
+      if id.kind ≠ .assertion then .fail s tx1 .invalid
+      else if (match expect with | some v => x.row.val != v | none => false) then .fail s tx1 .precond
+      else if x.row.val = 1 then .ok s tx1
+      else .ok s (markChanged tx1 id { x with row := { x.row with val := 1 } } .retract)
+
 /-- mint a shell, then continue with its id -/
 def pMint (k : Kind) (cont : Id → Store → Tx → PS) (s : Store) (tx : Tx) : PS :=
   cont (mintShell s tx k).2.2 (mintShell s tx k).1 (mintShell s tx k).2.1
@@ -394,9 +416,14 @@ def applyClause (c : Clause) (s : Store) (tx : Tx) : PS :=
           match findProposition s (a, p, b) with
           | some id => ((pGuard bad .invalid s tx).andThen (pExpect id expect)).andThen (pBind h id)
           | none =>
-              ((pGuard bad .invalid s tx).andThen (pGuard (expectNonZero expect) .versionConflict)).andThen
-                (pMint .proposition (fun id s tx =>
-                  (pBind h id s tx).andThen (pStageNew id { ty := p, tup := some (a, p, b) })))
+              -- a tuple an earlier clause of this statement staged for creation is bound, not staged again
+              match (if Gen.NexusOrder.ensureConsultsStaged then stagedNewProposition tx (a, p, b) else none) with
+              | some id =>
+                  ((pGuard bad .invalid s tx).andThen (pGuard (expectNonZero expect) .versionConflict)).andThen (pBind h id)
+              | none =>
+                  ((pGuard bad .invalid s tx).andThen (pGuard (expectNonZero expect) .versionConflict)).andThen
+                    (pMint .proposition (fun id s tx =>
+                      (pBind h id s tx).andThen (pStageNew id { ty := p, tup := some (a, p, b) })))
   | .createRec _ h pay refs bad =>
       match hGet tx.handles h with
       | none => .fail s tx .unknownHandle
@@ -414,6 +441,10 @@ def applyClause (c : Clause) (s : Store) (tx : Tx) : PS :=
       match resolve tx t with
       | .error e => .fail s tx e
       | .ok id => pSetState id to expect s tx
+  | .retract t expect =>
+      match resolve tx t with
+      | .error e => .fail s tx e
+      | .ok id => pRetract id expect s tx
 
 def declareAll (cs : List Clause) (p : PS) : PS :=
   cs.foldl (fun p c => p.andThen (declareClause c)) p
@@ -462,15 +493,20 @@ def tupleTaken (s : Store) (i : Id) (row : Row) : Bool :=
   | none => false
   | some t => (idsOf s .proposition).any (fun j => j != i && propHasTuple s t j)
 
-/-- `Transaction::write` for one staged row: `put` then `record_version`. -/
+/-- `Transaction::write` for one staged row: `put` (= `Collection::update` of the row minted at
+planning time: it fails when the row is not there, and on the unique `tuple_key` index) then
+`record_version`. -/
 def writeOne (s : Store) (seq : Nat) (i : Id) (x : Staged) : Except Err Store :=
-  if i.kind = .proposition ∧ tupleTaken s i x.row = true then .error .unique
-  else
-    let c := changeOf i x
-    let e : Elem := { row := x.row, version := c.version,
-                      state := if x.state = .pending then .active else x.state, seq := seq }
-    .ok { s with elems := setElem s.elems i (some e),
-                 vlog := { id := i, version := c.version, seq := seq, op := x.op, elem := e } :: s.vlog }
+  match s.elems i with
+  | none => .error .notFound
+  | some _ =>
+      if i.kind = .proposition ∧ tupleTaken s i x.row = true then .error .unique
+      else
+        let c := changeOf i x
+        let e : Elem := { row := x.row, version := c.version,
+                          state := if x.state = .pending then .active else x.state, seq := seq }
+        .ok { s with elems := setElem s.elems i (some e),
+                     vlog := { id := i, version := c.version, seq := seq, op := x.op, elem := e } :: s.vlog }
 
 /-- the write loop: stops at the first failing `put`, *keeping* what was already written -/
 def writeLoop (seq : Nat) : Store → List (Id × Staged) → List Change → Store × List Change × Option Err
@@ -511,7 +547,7 @@ structure CS where
   changes : List Change
   out : Option Outcome
 
-def commitStep (tx : Tx) (time : Nat) (c : CS) (st : CommitStep) : CS :=
+def commitStep (discardOnCheckFailure : Bool) (tx : Tx) (time : Nat) (c : CS) (st : CommitStep) : CS :=
   match c.out with
   | some _ => c
   | none =>
@@ -520,7 +556,9 @@ def commitStep (tx : Tx) (time : Nat) (c : CS) (st : CommitStep) : CS :=
     | .refClosure => c      -- same-Space closure: one Space in this model, never fails
     | .keyIdentity =>
         match checkKeys c.s tx.staged [] with
-        | .error e => { c with out := some (.refusedCheck e) }
+        | .error e =>
+            { c with s := if discardOnCheckFailure then discardShells c.s tx.shells else c.s,
+                     out := some (.refusedCheck e) }
         | .ok _ => c
     | .writeLoop =>
         match writeLoop tx.seq c.s tx.staged [] with
@@ -540,27 +578,25 @@ def finish (tx : Tx) (c : CS) : Store × Outcome :=
   | none => (c.s, .done tx.seq (if c.changes.isEmpty then .noEffect else .committed) c.changes)
 
 /-- `Transaction::commit` run over a given step order (the order is generated from source). -/
-def commitWith (order : List CommitStep) (s : Store) (tx : Tx) (time : Nat) : Store × Outcome :=
+def commitWith (order : List CommitStep) (discardOnCheckFailure : Bool) (s : Store) (tx : Tx) (time : Nat) :
+    Store × Outcome :=
   if tx.dry then
     (discardShells s tx.shells, .dryRun (changeRecords tx.staged))
   else
-    finish tx (order.foldl (commitStep tx time) { s := s, changes := [], out := none })
+    finish tx (order.foldl (commitStep discardOnCheckFailure tx time) { s := s, changes := [], out := none })
 
 /-- `kml::execute` over a given commit order, the `abort`-on-planning-error flag and the
-(currently absent) clean-up after a failed commit. -/
-def execWith (order : List CommitStep) (abortOnPlanError cleanAfterCommitError : Bool) (s : Store) (stmt : Stmt) :
+discard-on-check-failure flag. -/
+def execWith (order : List CommitStep) (abortOnPlanError discardOnCheckFailure : Bool) (s : Store) (stmt : Stmt) :
     Store × Outcome :=
   let p := plan stmt.clauses (begin s stmt.dry)
   match p.err with
   | some e => ((if abortOnPlanError then discardShells p.s p.tx.shells else p.s), .refusedPlan e)
-  | none =>
-      match commitWith order p.s p.tx stmt.time with
-      | (s', .refusedCheck e) => ((if cleanAfterCommitError then discardShells s' p.tx.shells else s'), .refusedCheck e)
-      | r => r
+  | none => commitWith order discardOnCheckFailure p.s p.tx stmt.time
 
-/-- the statement executor, running the order **generated from the current source** -/
+/-- the statement executor, running the order and placement **generated from the current source** -/
 def exec (s : Store) (stmt : Stmt) : Store × Outcome :=
-  execWith Gen.NexusOrder.commitOrder Gen.NexusOrder.abortOnPlanError Gen.NexusOrder.commitErrorCleansUp s stmt
+  execWith Gen.NexusOrder.commitOrder Gen.NexusOrder.abortOnPlanError Gen.NexusOrder.checkFailureDiscardsShells s stmt
 
 /-- a history of statements -/
 def run (s : Store) : List Stmt → Store
@@ -593,14 +629,17 @@ def visibleCount (s : Store) (k : Kind) : Nat :=
 
 def newer (a b : VEntry) : Bool := a.seq > b.seq || (a.seq == b.seq && a.version > b.version)
 
-/-- `Store::element_at`: among the version rows of `id` with `seq ≤ c`, the greatest `(seq, version)`. -/
-def elementAt (log : List VEntry) (id : Id) (c : Nat) : Option VEntry :=
-  log.foldl (fun best v =>
-    if v.id = id ∧ v.seq ≤ c then
-      match best with
-      | none => some v
-      | some b => if newer v b then some v else some b
-    else best) none
+/-- `Store::element_at`: among the version rows of `id` with `seq ≤ c`, the greatest
+`(seq, version)`. The log is newest first; the code scans oldest first and replaces its candidate
+only by a strictly greater one, so among equals the oldest wins. -/
+def elementAt : List VEntry → Id → Nat → Option VEntry
+  | [], _, _ => none
+  | v :: r, id, c =>
+      if v.id = id ∧ v.seq ≤ c then
+        match elementAt r id c with
+        | none => some v
+        | some b => if newer v b then some v else some b
+      else elementAt r id c
 
 /-- a purge destroys every version row of one element (`remove_versions`) -/
 def purgeVersions (log : List VEntry) (id : Id) : List VEntry := log.filter (fun v => v.id ≠ id)
